@@ -134,7 +134,8 @@ def dde_sentences(source: Iterable[str]) -> Iterator[Sequence[str]]:
     Since we simply collect all the matching groups, it's technically a Sequence[str].
     """
     dde_sentence_pattern = re.compile(
-        r"\s*(?P<level>\d\d)\s*(?P<clauses>.*?)\.\s", re.MULTILINE | re.DOTALL
+        r"\s*(?P<level>\d\d)\s*(?P<clauses>(?>'[^']*'|\"[^\"]*\"|.)*?)\.\s",
+        re.MULTILINE | re.DOTALL,
     )
 
     text = "".join(source)
